@@ -162,6 +162,17 @@ def enumerate_structures(rng, limit):
     return out
 
 
+def population_search(ctx):
+    """failing-input search over a fresh population (also used when an exception raised inside the implementation
+    ended the correspondence run early)"""
+    for _ in range(300):
+        c = st.gen_case(ctx.rng, KINDS, max_depth=3, cap=60, opaque=True)
+        why = oracle(c)
+        if why:
+            ctx.fail(why, c, {'kinds': sorted(pipes.kinds_in(c['spec']))})
+            return
+
+
 def run(ctx):
     ctx.rule = ('random lifting-function trees (all kinds, depth<=3, chains<=3, unequal delays, splits) x '
                 '(n_states 1..3, n_inputs 0..2, episode feature on/off) fitted on real pykoop and on the Lean '
@@ -211,12 +222,7 @@ def run(ctx):
             if why:
                 ctx.fail(why, c, {'kinds': sorted(pipes.kinds_in(c['spec']))})
                 return
-        for _ in range(300):
-            c = st.gen_case(ctx.rng, KINDS, max_depth=3, cap=60, opaque=True)
-            why = oracle(c)
-            if why:
-                ctx.fail(why, c, {'kinds': sorted(pipes.kinds_in(c['spec']))})
-                return
+        population_search(ctx)
     return ctx.finish('proof', search)
 
 
